@@ -41,7 +41,7 @@ func TestKnownParentMismatchLeak(t *testing.T) {
 		if ev.Err != nil {
 			rt.Fatalf("encrypt failed: %v", ev.Err)
 		}
-		for _, si := range w.Secrets.Infos()[ev.SecretFrom:ev.SecretTo] {
+		for _, si := range w.Secrets.InfosRange(ev.SecretFrom, ev.SecretTo) {
 			if si.Closed == 0 && w.IsParentMismatchSKLeak(ev, si) {
 				kit.Rec.Known("sk-ref-leak-on-parent-mismatch", "with key caching disabled: another process wrote the IK for the current stamp under SK1, SK1 is revoked, this process creates SK2, collides on the IK stamp and falls back to the stored IK; the SK1 secret it loads to unwrap it stays live after Encrypt returns")
 			}
